@@ -263,12 +263,14 @@ def range_check(chk, qa, tier, rng):
         ctx = new_context()
         obj = object.__new__(qa.QHACalculator)
         P = symvars("P", (nt, nv))
-        pd = symvars("p", (npd,))
+        # the requested grid as the QHA layer builds it: P_MIN + j * DELTA_P, j < NTV (all settings the adapter may consult are there)
+        dP = ctx.var("DELTA_P", positive=True)
+        pmin = ctx.var("P_MIN")
+        pd = symarray([pmin + dP * j for j in range(npd)])
         obj._p_tv_gpa = P
         obj._desired_pressures_gpa = pd
         obj.__dict__["_settings"] = None
-        dP = ctx.var("DELTA_P", positive=True)
-        settings = {"DELTA_P": dP}
+        settings = {"DELTA_P": dP, "P_MIN": pmin, "NTV": npd, "DELTA_P_SAMPLE": dP, "NT": nt, "volume_ratio": 1.2}
         try:
             type(obj).settings
             has_prop = isinstance(getattr(type(obj), "settings", None), property)
@@ -299,7 +301,7 @@ def range_check(chk, qa, tier, rng):
         except (SymError, X.PathBudgetExceeded) as e:
             chk.inconclusive(name, str(e))
             continue
-        spec = X.cond_or(*[X.cond_rel("<", P[t, nv - 1] - pd[j]) for t in range(nt) for j in range(npd)])
+        spec = X.cond_or(*[X.cond_rel("<", P[t, nv - 1] - Sym.of(pd[j])) for t in range(nt) for j in range(npd)])
         ok = True
         outcomes = set()
         for p in paths:
@@ -367,19 +369,25 @@ def range_check(chk, qa, tier, rng):
 
 def replay_range(chk, qa, rng, what, env=None, shape=(2, 3, 2)):
     nt, nv, npd = shape
-    for attempt in range(6):
+    for attempt in range(10):
         P = numpy.array([[rng.uniform(0, 50) for _ in range(nv)] for _ in range(nt)])
-        pd = numpy.array(sorted(rng.uniform(0, 50) for _ in range(npd)))
+        p_min, d_p = rng.uniform(-2, 5), rng.uniform(0.3, 3)
+        if attempt % 2 == 1:
+            # boundary grids: the top of the grid lies within one step below (or above) what every isotherm reaches
+            top = P[:, -1].min() + rng.choice((-0.4, -0.9, 0.3)) * d_p
+            p_min = top - d_p * (npd - 1)
         if env and attempt == 0:
             P = numpy.array([[env.get("P_%d_%d" % (t, v), P[t, v]) for v in range(nv)] for t in range(nt)])
-            pd = numpy.array([env.get("p_%d" % j, pd[j]) for j in range(npd)])
+            p_min, d_p = env.get("P_MIN", p_min), env.get("DELTA_P", d_p)
+        pd = p_min + d_p * numpy.arange(npd)
         o = object.__new__(qa.QHACalculator)
         o._p_tv_gpa = P
         o._desired_pressures_gpa = pd
+        st_ = {"DELTA_P": d_p, "P_MIN": p_min, "NTV": npd, "DELTA_P_SAMPLE": d_p, "NT": nt, "volume_ratio": 1.2}
         try:
-            o.settings = {"DELTA_P": 1.0}
+            o.settings = st_
         except AttributeError:
-            o._settings = {"DELTA_P": 1.0}
+            o._settings = st_
         want = P[:, -1].min() < pd.max()
         try:
             o.desired_pressure_status()
